@@ -31,7 +31,7 @@ var genRules = map[string]string{
 	"C06": "unmarshal: random value trees encoded by the reference, then rewritten into other legal encodings (fields reordered, packed <-> unpacked, packed runs split, singleton packed runs, singular scalars twice, singular messages split in two, map entries reversed / with key or value omitted / key twice / unknown field inside, unknown fields of all wire types interleaved, recursively in nested messages); destination pre-filled with an unrelated message; result read back through the runtime's own encoder and compared with dynamicpb's decode of the same bytes",
 	"C07": "unknown: the C06 encodings with unknown fields (four wire types; numbers: half of the time N-1 / N+1 of a declared field or declared extension N or a number at either end of an extension range — undeclared numbers INSIDE extension ranges included —, otherwise 900 … 2^29-1) at random positions, also inside nested messages and map entries; directed per message type: nothing but unknown fields (one of each wire type, a run), and for every declared field / extension N the message with N set and unknown fields N+1, N-1 (or, where those are declared, another undefined number) immediately before, between and immediately after the records of N, and the numbers around both ends of every extension range; history after generated Unmarshal: the input buffer overwritten (safe mode), Size+Marshal (unknown bytes — of nested generated messages too — re-emitted byte for byte, counted by Size), the returned buffer overwritten and appended to by the caller, the bytes held by the message and the next Marshal compared again, MarshalTo into a buffer that held other data, csproto.SetExtension / ClearExtension / Has+GetExtension of a DECLARED extension (unknown fields untouched) or ClearAllExtensions (unknown fields outside every extension range untouched), a second Unmarshal into the same message (exactly the second input's unknown fields afterwards)",
 	"C08": "unmarshal: the C06 encodings damaged by truncation, bit flips, continuation-bit inflation, junk, huge declared lengths, dangling continuation bytes: no panic, allocation sampled with runtime.MemStats, equality whenever both the generated code and dynamicpb accept",
-	"C09": "histories: per message type, 4-12 steps drawn from reflective field mutation (grow / shrink / set / clear), Size, the runtime's own Size+Marshal, Unmarshal of another message (half of them carrying an unknown field), Reset, Clone, and Marshal — each of these through the generated method, through csproto (Size, Marshal, Unmarshal, Reset, Clone) or through csproto.GrpcCodec — each Marshal compared with marshaling a fresh deep copy (obtained through the runtime's encoder) of the current contents, and every earlier Marshal result re-read after the later calls; the initial message and the Unmarshal payloads carry proto2 extensions (several at once), extensions are set / replaced / cleared through the owning runtime's API as a mutation step, payloads include nil and the empty slice, after every Unmarshal (three routes) the contents must be those the same call leaves in a new message, Marshal is repeated on the untouched message sequentially and from four goroutines at once and must return the same bytes, the same Unmarshal clause for runtime-served messages (gogo twin: XXX_Unmarshal arm; descriptorpb types: proto.Message arm), and the concurrent-first-use workload of C04 with the bytes compared; helpers: messages whose optional fields are assigned through csproto.Bool/Int32/…/String must not share memory",
+	"C09": "histories: per message type, 4-12 steps drawn from reflective field mutation (grow / shrink / set / clear; nested messages — generated and runtime-served ones, as singular field, list element, map value or oneof member — changed in place), each step after a mutation / Size / runtime call observed by a Marshal, by a MarshalTo into a larger buffer that nobody called Size() for, or not at all (so that changes pile up), Size, the runtime's own Size+Marshal, Unmarshal of another message (half of them carrying an unknown field), Reset, Clone, and Marshal — each of these through the generated method, through csproto (Size, Marshal, Unmarshal, Reset, Clone) or through csproto.GrpcCodec — each Marshal compared with marshaling a fresh deep copy (obtained through the runtime's encoder) of the current contents, and every earlier Marshal result re-read after the later calls; the initial message and the Unmarshal payloads carry proto2 extensions (several at once), extensions are set / replaced / cleared through the owning runtime's API as a mutation step, payloads include nil and the empty slice, after every Unmarshal (three routes) the contents must be those the same call leaves in a new message, Marshal is repeated on the untouched message sequentially and from four goroutines at once and must return the same bytes, the same Unmarshal clause for runtime-served messages (gogo twin: XXX_Unmarshal arm; descriptorpb types: proto.Message arm), and the concurrent-first-use workload of C04 with the bytes compared; helpers: messages whose optional fields are assigned through csproto.Bool/Int32/…/String must not share memory",
 	"C10": "clobber: safe-option variants only; after generated Unmarshal the input buffer is overwritten with 0xff and the message is read back through the runtime's encoder before and after; in two cases of three OTHER COMPONENTS RAN BEFORE the Unmarshal under test (1-3 of: lazyproto decode in safe / fast mode incl. nested results and Close, package-level lazyproto.Decode, a hand-written csproto.Decoder switched to fast mode that reads every field and is dropped — handed back if the type offers Release/Close/Free/Recycle —, a decoder whose mode is switched back and forth, generated Unmarshal of the enableunsafedecode variant); lazy-clobber: the string / bytes values (top level and one level down) obtained from a safe-mode lazy decode of the same bytes must not change when that decode's input buffer is overwritten and truncated",
 	"C12": "extensions: for every generated message type with extension ranges (scalar kinds, enum, string/bytes, message) and each of gogo / golang v1 API / google v2: random histories of Set/Clear/ClearAll with a full observation (Has, Get, Range, ExtensionFieldNumber, marshaled bytes) after every step, the same history driven through the owning runtime's own API on a twin message, and an abstract map as the specification; descriptors of the other runtime family must be refused without modifying the message; descriptors of the SAME runtime that extend another message (same extension numbers, other types): every answer and the resulting message equal to the owning runtime's on a twin; every history and every mismatch probe is also run through the Lean model of the dispatcher (C12.runCs on the abstract store) and compared answer by answer; the corpus declares bounded extension ranges, single-number ranges, several ranges per message, ranges between ordinary fields and `to max`, with extensions at the first and the last number of every range and at 2^29-1, and three extendees sharing numbers",
 	"C17": "required: proto2 types with required fields (top level, nested, repeated element, map value, oneof member); random subsets left unset; Marshal must fail exactly when dynamicpb's CheckInitialized fails; Unmarshal must fail exactly when the reference reports a missing required field; the empty message and the empty input included",
@@ -160,7 +160,7 @@ func runC16(c *fw.Ctx) int {
 	if c.Tier == "thorough" {
 		c.LeanChecker("C16")
 	}
-	return c.Finish("generate: the plug-in built from /repo is run through hand-made CodeGeneratorRequests on every schema of the corpus x {google v2, gogo (apiversion=v1, specialname=Size), golang v1 API with filepermessage=true, google v2 with enableunsafedecode=true}: plug-in error, go build of the output together with the runtime's .pb.go, file-name set, and byte comparison of a second run under a different working directory, environment and GOMAXPROCS; non-trivial = every (schema, variant) pair",
+	return c.Finish("generate: the plug-in built from /repo is run through hand-made CodeGeneratorRequests on every schema of the corpus x {google v2, gogo (apiversion=v1, specialname=Size), golang v1 API with filepermessage=true, google v2 with enableunsafedecode=true}: plug-in error, go build of the output together with the runtime's .pb.go, file-name set, and byte comparison of a second run under a different working directory, environment and GOMAXPROCS; requests naming several .proto files (the whole corpus per variant in corpus order and in reverse order, imported files with their own or the same Go package, extensions and shared types on both sides; the two-file requests of the corpus): every file must be what the one-file request for its .proto produced, repeated runs byte-identical; fact: no function of the plug-in writes to a package-level variable; non-trivial = every (schema, variant) pair",
 		append(trustedCommon, "the Go compiler is the oracle for 'valid Go that compiles' (not modelled)"),
 		[]string{"PARTIAL: 'compiles' is established on the corpus by the Go compiler (exploration), not by proof; the Lean part covers the generation plan (naming, routing tables)"})
 }
@@ -196,14 +196,48 @@ func expectedFileNamesOf(g *genpipe.Generated, sch *genpipe.Schema, prefix strin
 	return out
 }
 
+// oneFileOutputs: what the plug-in answers when it is asked for ONE of the .proto files of g at a time (a process of
+// its own per file, the same descriptors in the request): output file name -> content.
+func oneFileOutputs(pl *genpipe.Plugins, g *genpipe.Generated) (map[string]string, error) {
+	out := map[string]string{}
+	if len(g.FMToGen) < 2 {
+		for _, n := range g.FMFiles {
+			out[n] = g.Files[n]
+		}
+		return out, nil
+	}
+	for _, one := range g.FMToGen {
+		req := &pluginpb.CodeGeneratorRequest{FileToGenerate: []string{one}, Parameter: proto.String(g.Variant.FMParam()),
+			ProtoFile: append(append([]*descriptorpb.FileDescriptorProto{}, g.Deps...), g.FileProto), CompilerVersion: &pluginpb.Version{Major: proto.Int32(3), Minor: proto.Int32(21), Patch: proto.Int32(0)}}
+		resp, err := genpipe.RunPlugin(pl.FastMarshal, req)
+		if err != nil {
+			return nil, err
+		}
+		if resp.Error != nil {
+			return nil, fmt.Errorf("%s: %s", one, resp.GetError())
+		}
+		for _, f := range resp.File {
+			if _, dup := out[f.GetName()]; dup {
+				return nil, fmt.Errorf("%s written by two one-file requests", f.GetName())
+			}
+			out[f.GetName()] = f.GetContent()
+		}
+	}
+	return out, nil
+}
+
 // multiFileRequests: ONE request that names many .proto files (protoc a.proto b.proto …), per variant: the raw response
 // bytes of repeated runs (different GOMAXPROCS / environment) must be identical, and every file must be what the
-// one-file request for its .proto produced, under the same name.
+// one-file request for its .proto produced, under the same name — whatever was generated before it in the same
+// process. The request names unrelated files AND files that import each other (another Go package, the same Go
+// package, extensions on both sides, types used on both sides), once in corpus order and once with the schemas in
+// reverse order; the two-file requests of the corpus (imported file + importing file) are compared file by file with
+// the one-file requests too.
 func multiFileRequests(c *fw.Ctx, bc *builtCorpus) {
 	byVariant := map[string][]*genpipe.Generated{}
 	var order []string
 	for _, g := range bc.gens {
-		if !g.Variant.FM || g.GenError != "" || g.Schema.Dep != nil || len(g.Schema.Imports) > 0 || g.Schema.ID == "samename" || g.Schema.ID == "shortnames" {
+		if !g.Variant.FM || g.GenError != "" || g.Schema.ID == "samename" || g.Schema.ID == "shortnames" {
 			continue
 		}
 		if _, ok := byVariant[g.Variant.Name()]; !ok {
@@ -211,66 +245,141 @@ func multiFileRequests(c *fw.Ctx, bc *builtCorpus) {
 		}
 		byVariant[g.Variant.Name()] = append(byVariant[g.Variant.Name()], g)
 	}
+	version := &pluginpb.Version{Major: proto.Int32(3), Minor: proto.Int32(21), Patch: proto.Int32(0)}
 	for _, vn := range order {
 		gs := byVariant[vn]
 		if len(gs) < 3 {
 			continue
 		}
-		req := &pluginpb.CodeGeneratorRequest{Parameter: proto.String(gs[0].Variant.FMParam()), CompilerVersion: &pluginpb.Version{Major: proto.Int32(3), Minor: proto.Int32(21), Patch: proto.Int32(0)}}
 		want := map[string]string{}
+		usable := gs[:0:0]
 		for _, g := range gs {
-			req.ProtoFile = append(req.ProtoFile, g.FileProto)
-			req.FileToGenerate = append(req.FileToGenerate, g.FMToGen...)
-			for _, n := range g.FMFiles {
-				want[n] = g.Files[n]
-			}
-		}
-		desc := map[string]interface{}{"variant": vn, "files_to_generate": req.FileToGenerate, "parameter": gs[0].Variant.FMParam()}
-		in, _ := proto.Marshal(req)
-		var first []byte
-		outcome := "ok"
-		for i, procs := range []string{"16", "1", "4", "16", "2", "8"} {
-			cmd := exec.Command(bc.plugins.FastMarshal)
-			cmd.Dir = os.TempDir()
-			cmd.Env = append(os.Environ(), "GOMAXPROCS="+procs, "VERIF_NOISE="+fmt.Sprint(i))
-			cmd.Stdin = strings.NewReader(string(in))
-			out, err := cmd.Output()
+			single, err := oneFileOutputs(bc.plugins, g)
+			id := g.Schema.ID + "/" + vn
 			if err != nil {
-				outcome = "plugin-error"
-				c.Violate(fw.Violation{Stream: "generate", Signature: "gen/multi-file/plugin-error", What: "the plug-in failed on a request naming several files", Input: desc, Got: err.Error()})
-				break
-			}
-			if i == 0 {
-				first = out
-				resp := &pluginpb.CodeGeneratorResponse{}
-				if proto.Unmarshal(out, resp) != nil || resp.Error != nil {
-					outcome = "plugin-error"
-					c.Violate(fw.Violation{Stream: "generate", Signature: "gen/multi-file/plugin-error", What: "the plug-in failed on a request naming several files", Input: desc, Got: resp.GetError()})
-					break
-				}
-				seen := map[string]bool{}
-				for _, f := range resp.File {
-					if w, ok := want[f.GetName()]; !ok || w != f.GetContent() || seen[f.GetName()] {
-						outcome = "differs-from-single-file-request"
-						c.Violate(fw.Violation{Stream: "generate", Signature: "gen/multi-file/differs", What: "a file generated in a request that names several .proto files is not the file (name, content, once) the one-file request produced", Input: desc, Got: f.GetName()})
-						break
-					}
-					seen[f.GetName()] = true
-				}
-				if outcome == "ok" && len(seen) != len(want) {
-					outcome = "differs-from-single-file-request"
-					c.Violate(fw.Violation{Stream: "generate", Signature: "gen/multi-file/differs", What: "a request that names several .proto files does not produce all the files of the one-file requests", Input: desc, Expected: fmt.Sprint(len(want)), Got: fmt.Sprint(len(seen))})
-				}
+				c.Violate(fw.Violation{Stream: "generate", Signature: "gen/multi-file/plugin-error", What: "the plug-in failed on a one-file request for a file it generates in a request naming two files",
+					Input: map[string]interface{}{"schema": g.Schema.ID, "variant": vn, "files_to_generate": g.FMToGen}, Got: trunc(err.Error(), 400)})
+				c.Count("generate", "pair/"+id, "plugin-error", len(g.FMToGen), true)
 				continue
 			}
-			if !bytes.Equal(out, first) {
-				outcome = "nondeterministic"
-				c.Violate(fw.Violation{Stream: "generate", Signature: "gen/multi-file/nondeterministic", What: "identical requests naming several .proto files produced different response bytes (e.g. another file order)", Input: desc, Got: fmt.Sprintf("run %d (GOMAXPROCS=%s) differs from run 0", i, procs)})
-				break
+			usable = append(usable, g)
+			if len(g.FMToGen) > 1 {
+				// the request of the corpus named the imported file and the importing one
+				outcome := "ok"
+				seen := map[string]bool{}
+				for _, n := range g.FMFiles {
+					if w, ok := single[n]; !ok || w != g.Files[n] || seen[n] {
+						outcome = "differs-from-single-file-request"
+						c.Violate(fw.Violation{Stream: "generate", Signature: "gen/multi-file/differs", What: "a file generated in a request that names an imported .proto file and the file importing it is not the file (name, content, once) the one-file request produced",
+							Input: map[string]interface{}{"schema": g.Schema.ID, "variant": vn, "files_to_generate": g.FMToGen, "parameter": g.Variant.FMParam()}, Expected: firstDiff(w, g.Files[n], true), Got: n + ": " + firstDiff(w, g.Files[n], false)})
+						break
+					}
+					seen[n] = true
+				}
+				if outcome == "ok" && len(seen) != len(single) {
+					outcome = "differs-from-single-file-request"
+					c.Violate(fw.Violation{Stream: "generate", Signature: "gen/multi-file/differs", What: "a request that names an imported .proto file and the file importing it does not produce all the files of the one-file requests",
+						Input: map[string]interface{}{"schema": g.Schema.ID, "variant": vn, "files_to_generate": g.FMToGen}, Expected: fmt.Sprint(len(single)), Got: fmt.Sprint(len(seen))})
+				}
+				c.Count("generate", "pair/"+id, outcome, len(g.FMToGen), true)
+			}
+			for n, content := range single {
+				want[n] = content
 			}
 		}
-		c.Count("generate", "multi/"+vn, outcome, len(req.FileToGenerate), true)
+		gs = usable
+		for pass, label := range []string{"multi/", "multi-reversed/"} {
+			sel := append([]*genpipe.Generated{}, gs...)
+			if pass == 1 {
+				for i, j := 0, len(sel)-1; i < j; i, j = i+1, j-1 {
+					sel[i], sel[j] = sel[j], sel[i]
+				}
+			}
+			req := &pluginpb.CodeGeneratorRequest{Parameter: proto.String(gs[0].Variant.FMParam()), CompilerVersion: version}
+			have := map[string]bool{}
+			for _, g := range sel {
+				// imported files first (the well-known ones are shared between schemas)
+				for _, fd := range append(append([]*descriptorpb.FileDescriptorProto{}, g.Deps...), g.FileProto) {
+					if !have[fd.GetName()] {
+						have[fd.GetName()] = true
+						req.ProtoFile = append(req.ProtoFile, fd)
+					}
+				}
+				req.FileToGenerate = append(req.FileToGenerate, g.FMToGen...)
+			}
+			desc := map[string]interface{}{"variant": vn, "files_to_generate": req.FileToGenerate, "parameter": gs[0].Variant.FMParam()}
+			in, _ := proto.Marshal(req)
+			var first []byte
+			outcome := "ok"
+			procsList := []string{"16", "1", "4", "16", "2", "8"}
+			if pass == 1 {
+				procsList = []string{"16", "1"}
+			}
+			for i, procs := range procsList {
+				cmd := exec.Command(bc.plugins.FastMarshal)
+				cmd.Dir = os.TempDir()
+				cmd.Env = append(os.Environ(), "GOMAXPROCS="+procs, "VERIF_NOISE="+fmt.Sprint(i))
+				cmd.Stdin = strings.NewReader(string(in))
+				out, err := cmd.Output()
+				if err != nil {
+					outcome = "plugin-error"
+					c.Violate(fw.Violation{Stream: "generate", Signature: "gen/multi-file/plugin-error", What: "the plug-in failed on a request naming several files", Input: desc, Got: err.Error()})
+					break
+				}
+				if i == 0 {
+					first = out
+					resp := &pluginpb.CodeGeneratorResponse{}
+					if proto.Unmarshal(out, resp) != nil || resp.Error != nil {
+						outcome = "plugin-error"
+						c.Violate(fw.Violation{Stream: "generate", Signature: "gen/multi-file/plugin-error", What: "the plug-in failed on a request naming several files", Input: desc, Got: resp.GetError()})
+						break
+					}
+					seen := map[string]bool{}
+					for _, f := range resp.File {
+						if w, ok := want[f.GetName()]; !ok || w != f.GetContent() || seen[f.GetName()] {
+							outcome = "differs-from-single-file-request"
+							c.Violate(fw.Violation{Stream: "generate", Signature: "gen/multi-file/differs", What: "a file generated in a request that names several .proto files is not the file (name, content, once) the one-file request produced", Input: desc,
+								Expected: firstDiff(w, f.GetContent(), true), Got: f.GetName() + ": " + firstDiff(w, f.GetContent(), false)})
+							break
+						}
+						seen[f.GetName()] = true
+					}
+					if outcome == "ok" && len(seen) != len(want) {
+						outcome = "differs-from-single-file-request"
+						c.Violate(fw.Violation{Stream: "generate", Signature: "gen/multi-file/differs", What: "a request that names several .proto files does not produce all the files of the one-file requests", Input: desc, Expected: fmt.Sprint(len(want)), Got: fmt.Sprint(len(seen))})
+					}
+					continue
+				}
+				if !bytes.Equal(out, first) {
+					outcome = "nondeterministic"
+					c.Violate(fw.Violation{Stream: "generate", Signature: "gen/multi-file/nondeterministic", What: "identical requests naming several .proto files produced different response bytes (e.g. another file order)", Input: desc, Got: fmt.Sprintf("run %d (GOMAXPROCS=%s) differs from run 0", i, procs)})
+					break
+				}
+			}
+			c.Count("generate", label+vn, outcome, len(req.FileToGenerate), true)
+		}
 	}
+}
+
+// firstDiff: the first line in which two generated files differ (want side / got side)
+func firstDiff(want, got string, wantSide bool) string {
+	wl, gl := strings.Split(want, "\n"), strings.Split(got, "\n")
+	for i := 0; i < len(wl) || i < len(gl); i++ {
+		var w, g string
+		if i < len(wl) {
+			w = wl[i]
+		}
+		if i < len(gl) {
+			g = gl[i]
+		}
+		if w != g {
+			if wantSide {
+				return fmt.Sprintf("line %d: %s", i+1, strings.TrimSpace(w))
+			}
+			return fmt.Sprintf("line %d: %s", i+1, strings.TrimSpace(g))
+		}
+	}
+	return "(no difference)"
 }
 
 func rerun(pl *genpipe.Plugins, g *genpipe.Generated) string {
